@@ -37,6 +37,9 @@ structure Carrier where
   isCut : Bool := false
   -- ghost
   allIn : Bytes := []          -- every byte ever delivered on this carrier
+  consumed : Bytes := []       -- the bytes the handler has consumed so far (a prefix of allIn)
+  presented : Option CID := none  -- the ClientID it presented (after a correct token), kept after close
+  frames : Bytes := []         -- the bytes consumed after the 16-byte preface
   queued : List Bytes := []    -- packets this carrier passed to QueueIncoming, in order
   written : List Bytes := []   -- packets framed onto this carrier by its write loop, in order
 deriving DecidableEq, Repr
@@ -82,23 +85,27 @@ def hStep (st : St) (k : Nat) : Option St :=
   match c.pc with
   | .token =>
     if c.buf.length ≥ 8 then
-      if c.buf.take 8 = st.token then some { st with cs := upd st.cs k { c with pc := .cid, buf := c.buf.drop 8 } }
+      if c.buf.take 8 = st.token then
+        some { st with cs := upd st.cs k { c with pc := .cid, buf := c.buf.drop 8, consumed := c.consumed ++ c.buf.take 8 } }
       else some { st with cs := upd st.cs k { c with pc := .closed } }      -- unsupported one-shot connection
     else if c.isCut then some { st with cs := upd st.cs k { c with pc := .closed } }
     else none                                                              -- blocked in ReadFull
   | .cid =>
     if c.buf.length ≥ 8 then
-      some { st with cs := upd st.cs k { c with pc := .run (c.buf.take 8), buf := c.buf.drop 8 } }
+      some { st with cs := upd st.cs k { c with pc := .run (c.buf.take 8), buf := c.buf.drop 8,
+                                                consumed := c.consumed ++ c.buf.take 8, presented := some (c.buf.take 8) } }
     else if c.isCut then some { st with cs := upd st.cs k { c with pc := .closed } }
     else none
   | .run id =>
     match next (c.buf.length + 1) c.buf with
     | (.chunk p, rest) =>
       -- QueueIncoming: non-blocking send, dropped when the queue is full
+      let delta := c.buf.take (c.buf.length - rest.length)
+      let c' := { c with buf := rest, queued := c.queued ++ [p], consumed := c.consumed ++ delta,
+                         frames := c.frames ++ delta }
       if st.inq.length < st.queueSize then
-        some { st with cs := upd st.cs k { c with buf := rest, queued := c.queued ++ [p] },
-                       inq := st.inq ++ [(p, id)], inHist := st.inHist ++ [(p, id, k)] }
-      else some { st with cs := upd st.cs k { c with buf := rest, queued := c.queued ++ [p] } }
+        some { st with cs := upd st.cs k c', inq := st.inq ++ [(p, id)], inHist := st.inHist ++ [(p, id, k)] }
+      else some { st with cs := upd st.cs k c' }
     | (.tooLong, _) => some { st with cs := upd st.cs k { c with pc := .closed } }
     | (_, _) =>
       -- incomplete chunk: wait for more bytes, or end when the carrier was cut
